@@ -1,6 +1,8 @@
 package main
 
 import (
+	"verifharness/drv"
+
 	"encoding/json"
 	"errors"
 	"fmt"
@@ -53,11 +55,11 @@ func declJSON(d native.Declaration) []any {
 	return []any{dd.I, dd.N}
 }
 
-func init() {
-	register("c22", &Sub{
+func main() {
+	drv.Main(&drv.Sub{
 		Each: func(raw json.RawMessage, seed int64) []any {
 			var c c22Case
-			must(json.Unmarshal(raw, &c))
+			drv.Must(json.Unmarshal(raw, &c))
 			var out []any
 			if c.Fam == "import" {
 				var called []int
